@@ -21,7 +21,7 @@ ASSUMPTIONS = ["numeric agreement is certified up to the stated rounding budget,
 
 def plan(tier):
     if tier == "thorough":
-        return {"shards": 16, "cases": 40000, "shard_timeout_s": 3000, "shard_budget_s": 1500}
+        return {"shards": 16, "cases": 250000, "shard_timeout_s": 3000, "shard_budget_s": 1500}
     return {"shards": 16, "cases": 16000, "shard_timeout_s": 600, "shard_budget_s": 100}
 
 
